@@ -286,6 +286,9 @@ package avfs
 //@   ensures[C14] result("walkDirFn#0") != nil && !(result("walkDirFn#0") == filepath.SkipDir && d.IsDir()) ==> r0 == result("walkDirFn#0") && !called(ReadDir)
 //@   ensures[C14] result("walkDirFn#0") == nil && !d.IsDir() ==> r0 == nil && !called(ReadDir)
 //@   ensures[C14] result("walkDirFn#0") == nil && d.IsDir() ==> called(ReadDir) && arg(ReadDir, 1) == path
+// an error from an entry below (SkipAll included) stops the walk and is returned; only SkipDir is absorbed
+//@   ensures[C14] called(walkDir) && result(walkDir, 0) != nil && result(walkDir, 0) != filepath.SkipDir ==> r0 == result(walkDir, 0)
+//@   ensures[C14] called(walkDir) && result(walkDir, 0) == filepath.SkipDir ==> r0 == nil
 //@   loop 0 invariant true
 
 // ---- per-view state: setters modify the receiver's own cell only (C11) ------------------------
